@@ -117,6 +117,7 @@ struct Peer {
     stale_put: Option<u64>,
     /// images freed by an upper case delete of the handler
     freed_on_request: u64,
+    freed_ids: std::collections::BTreeSet<u64>,
 }
 
 impl Peer {
@@ -277,6 +278,7 @@ impl Peer {
                 // then on the image has to be transmitted again before it can be placed
                 if what == "I" && !self.placements.keys().any(|(i, _)| *i == id) && self.images.remove(&id).is_some() {
                     self.invalidated.insert(id);
+                    self.freed_ids.insert(id);
                     self.freed_on_request += 1;
                 }
             }
@@ -306,6 +308,7 @@ impl Peer {
         }
         self.images.insert(t.id, PeerImage { width: t.width, height: t.height, data });
         self.invalidated.remove(&t.id);
+        self.freed_ids.remove(&t.id);
         *self.transmissions.entry(t.id).or_default() += 1;
         if t.quiet == 0 {
             self.reply(t.id, None, "OK");
@@ -606,11 +609,16 @@ fn run(ctx: &Ctx, src: &mut Src) -> WorldResult {
         }
         if let Some(id) = peer.stale_put.take() {
             if !tainted {
+                let freed = peer.freed_ids.contains(&id);
                 return Err(Violation::new(
                     P,
                     "C11.put-untransmitted",
-                    "placement-after-error-reply-without-retransmission",
-                    format!("operation #{step}: a put command refers to image id={id} although the terminal had answered with an error for it and it was not transmitted again"),
+                    if freed { "placement-after-own-upper-case-delete-without-retransmission" } else { "placement-after-error-reply-without-retransmission" },
+                    if freed {
+                        format!("operation #{step}: a put command refers to image id={id} whose data the handler itself had released with an upper case delete (d=I), and it was not transmitted again")
+                    } else {
+                        format!("operation #{step}: a put command refers to image id={id} although the terminal had answered with an error for it and it was not transmitted again")
+                    },
                 ));
             }
         }
